@@ -1,0 +1,16 @@
+//go:build verif
+
+package server
+
+// Contracts for the govc verification-condition generator (/verif/govc).
+// This file is comment-only and guarded by the build tag `verif`.
+
+// ---- nats-server.go (C09): the bus token ------------------------------------------------------------------------
+// The options handed to the embedded NATS server carry the configured auth token: connections (and websocket
+// connections, when enabled) without it are refused by nats-server (trusted).
+//@ extern github.com/nats-io/nats-server/v2/server.GenTLSConfig(tc)
+//@ extern github.com/nats-io/nats-server/v2/server.NewServer(opts)
+//@   requires opts != nil
+//@ func newNatsServer
+//@   props C09
+//@   assert [C09] bus-token-configured: opts.Authorization == o.Auth && (o.WSPort != 0 ==> opts.Websocket.Token == o.Auth) at "server.NewServer(&opts)"
